@@ -92,6 +92,7 @@ def abandoned_questions_first(ctx, env, m, orc):
 
 def run(ctx):
     env = kit.Env(ctx)
+    kit.aliasing_probe(ctx, env.m, "C09")   # before anything else: what follows runs in a process whose program aliases and updates in place
     b, orc, m = env.b, env.orc, env.m
     ctx.cov["exhaustive"] = True
     ctx.count("declarations", len(b.decls))
